@@ -23,9 +23,24 @@ import sys
 import time
 
 VERIF = os.path.dirname(os.path.dirname(os.path.abspath(__file__)))
-HARNESS = os.path.join(VERIF, "harness")
+HARNESS_SRC = os.path.join(VERIF, "harness")
 WORK = os.path.join(VERIF, ".work")
-REPO = "/repo"
+# Normal operation: everything is built from /repo's working tree and evidence lands in
+# /verif/evidence. For sensitivity experiments (mutants living in a scratch worktree, so that
+# /repo stays untouched while other work goes on) VERIF_REPO=<worktree> redirects the path
+# dependencies to that tree and moves *all* outputs under .work/alt-<hash>/.
+REPO = os.path.realpath(os.environ.get("VERIF_REPO", "/repo"))
+ALT = REPO != "/repo"
+if ALT:
+    OUT = os.path.join(WORK, "alt-" + hashlib.sha1(REPO.encode()).hexdigest()[:8])
+    HARNESS = os.path.join(OUT, "harness")
+else:
+    OUT = VERIF
+    HARNESS = HARNESS_SRC
+RUNS = os.path.join(WORK, "runs") if not ALT else os.path.join(OUT, "runs")
+TARGET_BASE = WORK if not ALT else OUT
+EVIDENCE_DIR = os.path.join(OUT, "evidence")
+REPLAY_DIR = os.path.join(OUT, "replays")
 NCPU = os.cpu_count() or 8
 
 GUARD_FLAGS = "--cfg zcash_librustzcash_verif --check-cfg cfg(zcash_librustzcash_verif)"
@@ -35,8 +50,34 @@ def log(*a):
     print(*a, file=sys.stderr, flush=True)
 
 
+def path_farm():
+    """A PATH in which `protoc` cannot be found. zcash_client_backend's build script, when it finds
+    protoc, regenerates src/proto/*.rs inside /repo on every build: that makes the crate permanently
+    dirty (+10..25 s per check) and lets two concurrent builds race on files in /repo. The generated
+    files are committed in /repo, so nothing is lost by hiding protoc."""
+    farm = os.path.join(WORK, "pathfarm")
+    marker = os.path.join(farm, ".complete")
+    if not os.path.exists(marker):
+        os.makedirs(farm, exist_ok=True)
+        for d in ("/usr/bin", "/usr/sbin"):
+            for f in os.listdir(d):
+                if f == "protoc" or f.startswith("protoc-"):
+                    continue
+                dst = os.path.join(farm, f)
+                if not os.path.lexists(dst):
+                    try:
+                        os.symlink(os.path.join(d, f), dst)
+                    except FileExistsError:
+                        pass
+        open(marker, "w").write("ok")
+    home = os.path.expanduser("~")
+    return os.pathsep.join([os.path.join(home, ".cargo", "bin"), farm])
+
+
 def base_env():
     e = dict(os.environ)
+    e["PATH"] = path_farm()
+    e.pop("PROTOC", None)
     e["CARGO_NET_OFFLINE"] = "true"
     e.setdefault("CARGO_TERM_COLOR", "never")
     e.pop("RUSTFLAGS", None)  # harness/.cargo/config.toml carries the guard cfg
@@ -47,9 +88,28 @@ def base_env():
 def ensure_lockfile():
     """harness/Cargo.lock is committed (derived from /repo/Cargo.lock so that
     every shared dependency resolves to the version the repository pins)."""
+    if ALT:
+        sync_alt_harness()
     lock = os.path.join(HARNESS, "Cargo.lock")
     if not os.path.exists(lock):
         shutil.copy(os.path.join(REPO, "Cargo.lock"), lock)
+
+
+def sync_alt_harness():
+    """Mirror harness/ into the alt directory with /repo path dependencies rewritten."""
+    for root, dirs, files in os.walk(HARNESS_SRC):
+        dirs[:] = [d for d in dirs if d != "target"]
+        rel = os.path.relpath(root, HARNESS_SRC)
+        dst_dir = os.path.join(HARNESS, rel) if rel != "." else HARNESS
+        os.makedirs(dst_dir, exist_ok=True)
+        for f in files:
+            src = os.path.join(root, f)
+            dst = os.path.join(dst_dir, f)
+            data = open(src, "rb").read()
+            if f == "Cargo.toml":
+                data = data.replace(b'"/repo/', ('"' + REPO + '/').encode())
+            if not os.path.exists(dst) or open(dst, "rb").read() != data:
+                open(dst, "wb").write(data)
 
 
 class BuildError(Exception):
@@ -60,7 +120,7 @@ def cargo_build(package, bins=None, profile="release", variant="main", extra_env
                 toolchain=None, extra_args=None, features=None):
     """Builds harness binaries; returns the directory holding them."""
     ensure_lockfile()
-    target_dir = os.path.join(WORK, "target" if variant == "main" else "target-" + variant)
+    target_dir = os.path.join(TARGET_BASE, "target" if variant == "main" else "target-" + variant)
     env = base_env()
     env["CARGO_TARGET_DIR"] = target_dir
     if extra_env:
@@ -82,7 +142,7 @@ def cargo_build(package, bins=None, profile="release", variant="main", extra_env
     t0 = time.time()
     p = subprocess.run(cmd, cwd=HARNESS, env=env, stdout=subprocess.PIPE, stderr=subprocess.STDOUT, text=True)
     if p.returncode != 0:
-        tail = "\n".join(p.stdout.splitlines()[-60:])
+        tail = "\n".join(p.stdout.splitlines()[-150:])
         raise BuildError("cargo build failed (%s):\n%s" % (" ".join(cmd), tail))
     log("[build] %s %s/%s ok in %.1fs" % (package, variant, profile, time.time() - t0))
     sub = profile
@@ -108,7 +168,7 @@ def run_shards(prop_id, exe, nshards, seed, tier, budget_s, extra=None, events=F
                wrapper=None):
     """Runs `nshards` processes of `exe`. The watchdog (3x budget + 120 s) firing is
     recorded as timed_out -> inconclusive, never a violation."""
-    outdir = os.path.join(WORK, "runs", prop_id, tag)
+    outdir = os.path.join(RUNS, prop_id, tag)
     shutil.rmtree(outdir, ignore_errors=True)
     os.makedirs(outdir, exist_ok=True)
     watchdog = budget_s * 3 + 120
@@ -128,6 +188,7 @@ def run_shards(prop_id, exe, nshards, seed, tier, budget_s, extra=None, events=F
                 cmd += ["--" + k, str(v)]
         e = base_env()
         e["RUST_BACKTRACE"] = "0"
+        e["VERIF_REPO"] = REPO
         if env:
             e.update(env)
         if per_shard_env:
@@ -248,11 +309,11 @@ def finish(spec, fold, tier, seed, t0, replay_mode=False):
         if have < minimum:
             fold.broken.append("coverage floor not met: %s=%d < %d" % (k, have, minimum))
 
-    os.makedirs(os.path.join(VERIF, "evidence"), exist_ok=True)
-    os.makedirs(os.path.join(VERIF, "replays"), exist_ok=True)
+    os.makedirs(EVIDENCE_DIR, exist_ok=True)
+    os.makedirs(REPLAY_DIR, exist_ok=True)
     replay_paths = {}
     for i, (s, v) in enumerate(sorted(new_viol.items())):
-        path = os.path.join(VERIF, "replays", "%s-seed%d-%s-%d.json" % (pid, seed, tier, i))
+        path = os.path.join(REPLAY_DIR, "%s-seed%d-%s-%d.json" % (pid, seed, tier, i))
         json.dump({"property": pid, "tier": tier, "seed": seed, "signature": s, "count": v["count"],
                    "examples": v["examples"]}, open(path, "w"), indent=1)
         replay_paths[s] = path
@@ -285,7 +346,7 @@ def finish(spec, fold, tier, seed, t0, replay_mode=False):
         "violations": int(sum(v["count"] for v in new_viol.values())),
     }
     if not replay_mode:
-        json.dump(ev, open(os.path.join(VERIF, "evidence", pid + ".json"), "w"), indent=1, sort_keys=True)
+        json.dump(ev, open(os.path.join(EVIDENCE_DIR, pid + ".json"), "w"), indent=1, sort_keys=True)
 
     for s, v in sorted(seen_known.items()):
         print("KNOWN-FINDING: property=%s %s (%s; observed %d times in this run)" % (pid, s, known_sigs[s].get("description", "")[:160], v["count"]))
